@@ -358,6 +358,32 @@ fn check_stack(buf: &mut Buffer, st: &Stack, ctx: &mut Ctx) {
             return;
         }
     }
+    // L7: what a layer shows does not depend on how its rows are stored: trailing rows without visible cells may be missing from the
+    //     line vector (rows are stored lazily) and the vector may hold rows beyond the layer height (a layer that was made smaller)
+    for i in 0..n {
+        for variant in 0..2 {
+            let mut ls = built.clone();
+            if variant == 0 {
+                while ls[i].lines.last().map(|l| l.chars.iter().all(|c| !c.is_visible())).unwrap_or(false) {
+                    ls[i].lines.pop();
+                }
+            } else {
+                let mut extra = icy_engine::Line::default();
+                extra.chars = vec![AttributedChar::new('#', TextAttribute::new(11, 5)); specs[i].w.max(1) as usize];
+                while (ls[i].lines.len() as i32) < specs[i].h {
+                    ls[i].lines.push(icy_engine::Line::default());
+                }
+                ls[i].lines.push(extra);
+            }
+            set_layers(buf, ls);
+            ctx.count("transitions", 1);
+            let s = sample(buf, b, 0, 0);
+            if s != base {
+                report(ctx, if variant == 0 { "L7-trailing-rows-not-stored" } else { "L7-rows-stored-beyond-the-height" }, json!({"layer": i}), &base, &s);
+                return;
+            }
+        }
+    }
     // R: reference compositor for normal layers without transparent colours
     if specs.iter().all(|l| l.mode == 0 && !l.has_transparent_colour()) {
         ctx.count("traces_validated", 1);
@@ -510,6 +536,26 @@ fn run_mixed_rows(page: usize, ctx: &mut Ctx) {
                 put(&mut b, x + 2, row as i32, &Cell::new(b'A' as u32, 3, 4).page(q));
             }
         }
+        // the same font once more in slot 7 with every blank glyph made visible in place (its cached checksum still equals the original's)
+        let mut copy = font.clone();
+        for g in &blank {
+            if let Some(gl) = copy.get_glyph_mut(char::from_u32(*g).unwrap()) {
+                for (r, row) in gl.data.iter_mut().enumerate() {
+                    *row = if r % 2 == 0 { 0xAA } else { 0x55 };
+                }
+            }
+        }
+        if q != 7 && page != 7 {
+            let mut b2 = b.flat_clone(true);
+            b2.set_font(7, copy);
+            for (row, (fg, bg)) in [(7u32, 0u32), (14, 1), (0, 7)].iter().enumerate() {
+                for (i, g) in blank.iter().enumerate() {
+                    put(&mut b2, 3 * i as i32 + 2, row as i32, &Cell::new(*g, *fg, *bg).page(7));
+                }
+            }
+            ctx.count("nontrivial", 1);
+            check_optimizer(&b2, json!({"font_page_of_the_blank_glyphs": page, "neighbour_page": q, "slot_7": "copy of the page font with every blank glyph edited in place to a visible pattern", "blank_glyphs": blank}), "edited-copy-of-a-font", ctx);
+        }
         ctx.count("nontrivial", 1);
         check_optimizer(&b, json!({"font_page_of_the_blank_glyphs": page, "neighbour_page": q, "blank_glyphs": blank, "layout": "3 colour rows x (glyph g on the other page, g on this page, 'A' on the other page)"}), "blank-glyph-between-pages", ctx);
     }
@@ -610,7 +656,7 @@ impl Engine for Layers {
                 for i in *first..*first + *count {
                     let specs = self.stack(false, depth, i);
                     // the flattening step needs a base layer as large as the document; the base layer in every state a user can put it in
-                    for (bi, base_state) in ["plain", "hidden", "locked", "moved by (1,1)", "alpha channel"].iter().enumerate() {
+                    for (bi, base_state) in ["plain", "hidden", "locked", "moved by (1,1)", "alpha channel", "only its first row stored"].iter().enumerate() {
                         let mut buf = Buffer::new((6, 5));
                         let mut ls: Vec<Layer> = specs.iter().map(|l| l.build()).collect();
                         let mut base = Layer::new("base", (6, 5));
@@ -621,9 +667,17 @@ impl Engine for Layers {
                             2 => base.properties.is_locked = true,
                             3 => base.set_offset((1, 1)),
                             4 => base.properties.has_alpha_channel = true,
+                            5 => base.lines.truncate(1),
                             _ => {}
                         }
                         ls.insert(0, base);
+                        // a small floating layer low in the document (below every row the other layers store)
+                        let mut low = Layer::new("low", (2, 1));
+                        low.properties.has_alpha_channel = true;
+                        low.set_offset((2, 3));
+                        low.set_char((0, 0), AttributedChar::new('L', TextAttribute::new(10, 4)));
+                        low.set_char((1, 0), AttributedChar::new(' ', TextAttribute::new(1, 6)));
+                        ls.push(low);
                         buf.layers = ls;
                         ctx.count("nontrivial", 1);
                         check_optimizer(&buf, json!({"base_layer": base_state, "stack(bottom first, above a 6x5 base layer)": specs.iter().map(|l| l.json()).collect::<Vec<_>>()}), "layer-stack", ctx);
@@ -646,7 +700,7 @@ impl Engine for Layers {
     }
     fn meta(&self) -> Value {
         json!({"property": self.prop, "rich_layer_menu": self.rich.len(), "small_layer_menu": self.small.len(), "batches": self.jobs.len(),
-               "laws": ["L1 empty alpha layer at every index", "L2 edit hidden layers", "L3 translate stack by 4 vectors", "L4 replace everything below an opaque normal layer", "L5 move each layer away", "L6 place each layer after a preview offset", "R reference compositor (normal layers, no transparent colours)"]})
+               "laws": ["L1 empty alpha layer at every index", "L2 edit hidden layers", "L3 translate stack by 4 vectors", "L4 replace everything below an opaque normal layer", "L5 move each layer away", "L6 place each layer after a preview offset", "L7 row storage (trailing rows not stored / rows stored beyond the height)", "R reference compositor (normal layers, no transparent colours)"]})
     }
 }
 
